@@ -301,6 +301,20 @@ def timeouts(cx, quick):
                 r2 = cx.batch(setup + ["scan target=s0 via=mem ml=0 timeout=1 data=@9"])      # re-run alone before reporting
                 if isinstance(r2, Exception) or r2[-1]["rc"] != E["TIMEOUT"]:
                     cx.ck.violation("C15:timeout:%s:real-clock-no-timeout" % name, dict(seconds=dt, rc=None if isinstance(r, Exception) else r[0]["rc"]))
+    # data arriving in many blocks: the deadline is looked at at least once per block, whatever the block size (a scan fed by an iterator that never ends must stop)
+    rep = cx.batch(["reset", "compiler 0", "add 0 - " + yv.hx('rule r { strings: $a = "needle" condition: $a }'), "getrules 0 0", "cdestroy 0", "scanner 0 0"])
+    for size in (64, 1024, 4095, 4096, 4097):
+        polls = {}
+        for nblk in (1, 4, 12):
+            r = cx.batch(["scan target=s0 via=blocks ml=0 timeout=100 clock=100000:1 data=%s blocks=%s" % (yv.hx(b"ab" * (size * nblk // 2) + b"a" * ((size * nblk) % 2)), ",".join([str(size)] * nblk))])
+            total += 1
+            if isinstance(r, Exception) or r[0]["rc"] != 0:
+                cx.ck.violation("C15:timeout:blocks:unexpected-result", dict(block_size=size, blocks=nblk, reply=str(r)[:300])); break
+            polls[nblk] = r[0]["polls"]
+        else:
+            if polls[4] - polls[1] < 3 or polls[12] - polls[1] < 11:
+                cx.ck.violation("C15:timeout:blocks:deadline-not-checked-once-per-block", dict(block_size=size, polls_by_block_count=polls))
+            cx.ck.sub("timeouts", **{"blocks-of-%d" % size: polls})
     cx.n += total
     return total
 
